@@ -13,15 +13,17 @@
    task to be woken (the mock wakes immediately).
    A task waits for at most one mutex at a time, so the Waiter entries are stored per task:
    [wk u = Some (k, i, w)] = task u's MutexLockFuture for key k owns slab index i and its entry
-   is Woken iff w.  In every reachable state all insertions into the slab of k happen while k's
-   guard is held by the one supplier call for k and all removals after it, so slab indices
-   are handed out in increasing order ([slen k] = entries.len()) and never reused.
-   Definitions only. *)
+   is Woken iff w.  Slab indices follow slab 0.4.9: [slen k] = (entries.len(), stack of vacant
+   indices); insert takes the most recently vacated index, else appends; remove pushes the index.
+   (Without drops all insertions into k's slab happen during the one supplier call for k and all
+   removals after it, so indices simply increase; with C12/DropModel.v a waiter can leave while
+   the guard is still held and a later waiter reuses its index — the poll traces of mode 3 showed
+   exactly that.)  Definitions only. *)
 From RM Require Export C12.Model.
 
 Record wext := {
   wk   : task -> option (key * nat * bool);
-  slen : key -> nat;
+  slen : key -> nat * list nat;
   flag : task -> bool            (* the executor's "woken since its last poll" bit *)
 }.
 
@@ -63,13 +65,23 @@ Definition wake (n : nat) (k : key) (x : wext) : wext :=
 Definition register (t : task) (k : key) (x : wext) : wext :=
   match wk x t with
   | Some (k', i, _) => {| wk := upd (wk x) t (Some (k', i, false)); slen := slen x; flag := flag x |}
-  | None => {| wk := upd (wk x) t (Some (k, slen x k, false));
-               slen := upd (slen x) k (S (slen x k)); flag := flag x |}
+  | None =>
+      {| wk := upd (wk x) t (Some (k, match snd (slen x k) with j :: _ => j | [] => fst (slen x k) end, false));
+         slen := upd (slen x) k (match snd (slen x k) with
+                                 | _ :: f => (fst (slen x k), f)
+                                 | [] => (S (fst (slen x k)), [])
+                                 end);
+         flag := flag x |}
   end.
 
-(* remove_waker(wait_key, false) on acquisition *)
+(* remove_waker(wait_key, _): the Waiter leaves the slab, its index becomes the next vacant one *)
 Definition unregister (t : task) (x : wext) : wext :=
-  {| wk := upd (wk x) t None; slen := slen x; flag := flag x |}.
+  {| wk := upd (wk x) t None;
+     slen := match wk x t with
+             | Some (k, i, _) => upd (slen x) k (fst (slen x k), i :: snd (slen x k))
+             | None => slen x
+             end;
+     flag := flag x |}.
 
 Fixpoint wadvance (c : config) (n : nat) (t : task) (rem : list key) (ph : phase) (s : shared) (x : wext)
   : list key * phase * shared * wext :=
@@ -107,7 +119,7 @@ Definition wpoll (c : config) (t : task) (w : wstate) : wstate :=
 
 (* every task is scheduled once at spawn *)
 Definition winit (c : config) : wstate :=
-  {| base := init c; ext := {| wk := fun _ => None; slen := fun _ => 0; flag := fun _ => true |} |}.
+  {| base := init c; ext := {| wk := fun _ => None; slen := fun _ => (0, []); flag := fun _ => true |} |}.
 
 Definition wrun_from (c : config) (w : wstate) (sched : list task) : wstate :=
   fold_left (fun w t => wpoll c t w) sched w.
